@@ -325,7 +325,7 @@ def main() -> int:
 
     if args.command == "stack":
         laser = stack(args.lasers, args.orientation, args.pad, args.calibrate)
-        save(laser, args.output)
+        save(laser, args.output[0])
         return 0
 
     for laser, input, output in zip(args.lasers, args.input, args.output):
